@@ -341,26 +341,56 @@ class Objective:
         self.failure = failure
         self.n = 0
         self.ki_at = -1
+        self.in_body = False
         self.evals: list = []
         self.intended: list = []
 
     def __call__(self, trial: Any) -> float:
+        self.in_body = True
+        try:
+            return self._call(trial)
+        finally:
+            self.in_body = False
+
+    def _call(self, trial: Any) -> float:
         idx = self.n
         self.n += 1
+        slot = len(self.intended)  # (aborted asks also occupy a slot: not the evaluation index)
         self.intended.append("FAIL")  # until the body is through (an escaping exception = FAIL)
         inner = self.body(trial, self)
         if idx == self.ki_at:
             raise KeyboardInterrupt()
         if inner is not None:
-            self.intended[idx] = "PRUNED" if inner == "prune" else "FAIL"
+            self.intended[slot] = "PRUNED" if inner == "prune" else "FAIL"
             raise (optuna.TrialPruned() if inner == "prune" else Planned("inner"))
         if self.failure[0] == "fail" and self.failure[1] == idx:
             raise Planned("leaf")
         if self.failure[0] == "prune" and self.failure[1] == idx:
-            self.intended[idx] = "PRUNED"
+            self.intended[slot] = "PRUNED"
             raise optuna.TrialPruned()
-        self.intended[idx] = "COMPLETE"
+        self.intended[slot] = "COMPLETE"
         return float(idx)
+
+
+def arm_write_fault(storage: Any, obj: Objective, at: int, j: int) -> None:
+    """Ctrl-C landing inside ask(): KeyboardInterrupt before the j-th system-attr write that the
+    sampler issues for the trial following evaluation `at` (outside the objective). The aborted
+    trial is no evaluation; it must end FAIL and the run, once resumed, must still visit every
+    cell exactly once and stop."""
+    orig = storage.set_trial_system_attr
+    st = {"count": 0, "done": False}
+
+    def wrapper(trial_id: int, key: str, value: Any) -> None:
+        if not st["done"] and obj.n == at and not obj.in_body:
+            st["count"] += 1
+            if st["count"] == j:
+                st["done"] = True
+                obj.intended.append("FAIL")
+                storage.set_trial_system_attr = orig
+                raise KeyboardInterrupt()
+        return orig(trial_id, key, value)
+
+    storage.set_trial_system_attr = wrapper
 
 
 def drive(case: dict, store: Store, make_sampler: Any, obj: Objective, total: int, prepare: Any) -> dict:
@@ -380,6 +410,8 @@ def drive(case: dict, store: Store, make_sampler: Any, obj: Objective, total: in
             prepare(study, "last")
         n_trials = pos - before if typ == "n" else total + 3
         obj.ki_at = pos - 1 if typ == "ki" else -1
+        if typ.startswith("kw"):
+            arm_write_fault(study._storage, obj, pos - 1, int(typ[2:]))
         try:
             study.optimize(obj, n_trials=n_trials, catch=(Planned,))
             ended = "returned"
@@ -401,6 +433,10 @@ def drive(case: dict, store: Store, make_sampler: Any, obj: Objective, total: in
             if ended != "KeyboardInterrupt":
                 problem = "stopped-before-exhaustion" if ran < pos - before else "keyboardinterrupt-swallowed"
                 break
+        elif typ.startswith("kw"):
+            if ended != "KeyboardInterrupt":
+                problem = "stopped-before-exhaustion" if ran < pos - 1 - before else "keyboardinterrupt-swallowed"
+                break
         else:
             if ended != "returned":
                 problem = f"unexpected-{ended}"
@@ -419,6 +455,8 @@ def variant_class(case: dict) -> str:
     s = f"failure={fclass(case['failure'])} split={len(cuts) + 1}"
     if any(t == "ki" for _, t in cuts):
         s += "+ki"
+    if any(t.startswith("kw") for _, t in cuts):
+        s += "+interrupt-in-ask"
     if case["sampler"] == "bruteforce":
         s += f" aps={'T' if case['aps'] else 'F'}"
     pre = case["pre"]
@@ -857,6 +895,10 @@ def plan_grid(shape: list, theme: int, level: str, storage: str = "mem") -> list
                     continue
                 for cuts in scheds:
                     add(seed, f, cuts, pre)
+        # Ctrl-C inside ask() (before each of the sampler's two system-attr writes of a trial)
+        for pos in sorted(set(grid_positions(ncell)) | {1, ncell}):
+            for j in (1, 2):
+                add(seed, ["none"], [[pos, f"kw{j}"]], "none")
     return cases
 
 
